@@ -41,6 +41,9 @@ def lockFree (n : String) : Bool :=
 /-- number of `cond.Broadcast()` calls in `n` -/
 def broadcasts (n : String) : Option Nat := (find n).bind (fun m => if m.found then some m.broadcasts else none)
 
+/-- conditions of the `for … { cond.Wait() }` loops of `n` -/
+def waitConds (n : String) : Option (List String) := (find n).bind (fun m => if m.found then some m.waitConds else none)
+
 /-- exact top-level shape of `n` -/
 def shape (n : String) : Option (List String) := (find n).bind (fun m => if m.found then some m.top else none)
 
